@@ -501,8 +501,12 @@ class AuthorizationRequest(oauth2.AuthorizationRequest):
         if "response_type" not in self:
             raise MissingRequiredAttribute("response_type missing", self)
 
+        # A request passed by reference is complete only after the provider has fetched the request
+        # object: what depends on the assembled parameters is verified then (resolved=True).
+        _by_ref = "request_uri" in self and not kwargs.get("resolved")
+
         _rt = self["response_type"]
-        if "id_token" in _rt:
+        if "id_token" in _rt and not _by_ref:
             if "nonce" not in self:
                 raise MissingRequiredAttribute("Nonce missing", self)
             else:
@@ -515,7 +519,7 @@ class AuthorizationRequest(oauth2.AuthorizationRequest):
         if "openid" not in self.get("scope", []):
             raise MissingRequiredValue("openid not in scope", self)
 
-        if "offline_access" in self.get("scope", []):
+        if "offline_access" in self.get("scope", []) and not _by_ref:
             if "prompt" not in self or "consent" not in self["prompt"]:
                 raise MissingRequiredValue("consent in prompt", self)
 
